@@ -203,3 +203,38 @@ Theorem C01_roundtrip_readable_storage :
       forall c d p, In (c, d) bs -> cid_parse c = Some p -> sto_get s (key_of (q_whole q) c p) = OBytes d.
 Proof. exact rt_storage. Qed.
 Print Assumptions C01_roundtrip_readable_storage.
+
+(* the two random-access round trips with the content conditions in DECIDABLE form -- consistentb (equal
+   multihash => equal bytes) and id_consistentb (identity sections carry their digest), theories/ReadOnly.v.
+   The check evaluates exactly this boolean on the stored blocks of every generated case (clause
+   stored-blocks-not-consistent), so for the generator's key pool the hypothesis is discharged per case. *)
+Theorem C01_roundtrip_readonly_blockstore_dec :
+  forall q f ro bs ct,
+    wrote f ro bs ct ->
+    (roots_ok (hdr_roots ro) /\
+     (blen (enc_header ro 1) <= q_maxh q /\ Forall (rblock_ok (q_maxs q) (q_maxcid q)) bs /\ (0 = 0 \/ q_zeof q = true)) /\
+     (q_codec q = codec_sorted \/ q_codec q = codec_mh_sorted) /\ 10 <= q_maxh q /\
+     (ct <> CV1 -> N.of_nat (length bs) < two31) /\
+     (q_storeid q = true -> index_wid q ct None = true) /\ consistentb bs && id_consistentb bs = true) ->
+    blen f < two63 ->
+    exists s, ro_open dec_header_canon q f None = Ok s /\
+      ro_roots dec_header_canon s = OKeys (hdr_roots ro) /\
+      ro_keys dec_header_canon s = KKeys (ref_keys (q_whole q) bs) None /\
+      forall c d p, In (c, d) bs -> cid_parse c = Some p -> ro_get s (key_of (q_whole q) c p) = OBytes d.
+Proof. exact rt_readonly_dec. Qed.
+Print Assumptions C01_roundtrip_readonly_blockstore_dec.
+
+Theorem C01_roundtrip_readable_storage_dec :
+  forall q f ro bs ct,
+    wrote f ro bs ct ->
+    (roots_ok (hdr_roots ro) /\
+     (blen (enc_header ro 1) <= q_maxh q /\ Forall (rblock_ok (q_maxs q) (q_maxcid q)) bs /\ (0 = 0 \/ q_zeof q = true)) /\
+     (q_codec q = codec_sorted \/ q_codec q = codec_mh_sorted) /\ 10 <= q_maxh q /\
+     (ct <> CV1 -> N.of_nat (length bs) < two31) /\
+     (q_storeid q = true -> index_wid q ct None = true) /\ consistentb bs && id_consistentb bs = true) ->
+    blen f < two63 ->
+    exists s, sto_open dec_header_canon q f = Ok s /\
+      sto_roots s = OKeys (hdr_roots ro) /\
+      forall c d p, In (c, d) bs -> cid_parse c = Some p -> sto_get s (key_of (q_whole q) c p) = OBytes d.
+Proof. exact rt_storage_dec. Qed.
+Print Assumptions C01_roundtrip_readable_storage_dec.
